@@ -167,7 +167,7 @@ def spaces(tier):
             aliases = [a for a, _ in MR_LAYOUTS[layout]["base"]]
             seqs = [None] + [list(t) for L in range(0, 4) for t in itertools.product(aliases + ["zz"], repeat=L)]
             for ex in range(len(seqs)):
-                for h in range(4):
+                for h in range(8):
                     yield ("mr", layout, ex, h)
     out.append(Space("mr_derived", [(1, genm)], 1, {"layouts": len(MR_LAYOUTS)}))
     return out
@@ -188,6 +188,18 @@ MR_LAYOUTS = [
                  {"pos": 3, "alias": "d_a2b", "name": "d_a2b", "members": ["m_1", "m_2"],
                   "anchor": {"position": "after", "alias": "m_2"}},
                  {"pos": 5, "alias": "d_bot", "name": "d_bot", "members": ["m_3"], "anchor": "bottom"}]},
+    # anchors that no longer exist send the item to the bottom, in payload order with the others there
+    {"base": [("m_1", 1), ("m_2", 2), ("m_3", 3)],
+     "derived": [{"pos": 1, "alias": "d_sa", "name": "d_sa", "members": ["m_1", "m_2"],
+                  "anchor": {"position": "after", "alias": "gone"}},
+                 {"pos": 3, "alias": "d_bot", "name": "d_bot", "members": ["m_3"], "anchor": "bottom"},
+                 {"pos": 5, "alias": "d_sb", "name": "d_sb", "members": ["m_2", "m_3"],
+                  "anchor": {"position": "before", "alias": "gone"}}]},
+    {"base": [("m_1", 1), ("m_2", 2), ("m_3", 3)],
+     "derived": [{"pos": 0, "alias": "d_sb", "name": "d_sb", "members": ["m_1", "m_2"],
+                  "anchor": {"position": "before", "alias": "d_none"}},      # anchored to a DERIVED item: stale
+                 {"pos": 2, "alias": "d_none", "name": "d_none", "members": ["m_3"], "anchor": None},
+                 {"pos": 3, "alias": "d_top", "name": "d_top", "members": ["m_2", "m_3"], "anchor": "top"}]},
 ]
 
 SCHEMAS = {}
@@ -354,6 +366,8 @@ def _check_mr(state):
     items = M.items
     all_aliases = [it["alias"] for it in items]
     hidden_alias = [aliases[i] for i in range(2) if h >> i & 1]
+    if h >> 2 & 1:
+        hidden_alias.append(lay["derived"][-1]["alias"])      # a derived item can be hidden like any other
     C = S.cat("c", 2, "last")
     sch = Schema("c07mr", [M, C], [("mr", 0), ("cat", 1)])
     dt = {}
